@@ -12,7 +12,7 @@ RULE = ("Generated: (operation, operand shapes, float64 operand values with per-
         "equations generated from random index strings (plus the equations the library's own callers use); rejection cases "
         "(rank mismatch, shape mismatch, aliasing out=). Oracle: numpy complex128 arithmetic on the decoded operands. "
         "Non-trivial = a rejection case, or all operands have non-zero real AND imaginary parts and some dimension > 1.")
-RULE_EXT = ('Extended as built: purely real / purely imaginary operands, moduli 1e-12..1e3, contraction lengths up to 320, five chained applications whose earlier results are HELD and re-verified (no aliasing of outputs), the shared constant cplx.I must be unchanged after every case.')
+RULE_EXT = ('Extended as built: purely real / purely imaginary operands, moduli 1e-12..1e3, contraction lengths up to 320, five chained applications whose earlier results are HELD and re-verified (no aliasing of outputs), the shared constant cplx.I must be unchanged after every case. Rounds 5-6: cplx.I together with an out= buffer; a computed result shares no memory with an operand.')
 RULE = RULE + " " + RULE_EXT
 ASSUMPTIONS = ["float64 operands, each entry 0 or 1e-100 <= |x| <= 1e3, denominators |y| >= 1e-3, sigmoid |Re z| <= 700",
                "tolerance 1e-12 * (sum of |terms|) for products, 1e-10 relative for quotients"]
@@ -188,6 +188,12 @@ def cmp(out, ref, scale, what, rtol=1e-12):
     ok = np.all(err <= rtol * scale) if err.size else True
     require(bool(ok), what + ":value", f"{what}: differs from numpy complex arithmetic (max err {float(err.max()) if err.size else 0:.3e}, allowed {rtol}*scale)",
             got=str(z.tolist())[:400], ref=str(ref.tolist())[:400])
+    if "out=" not in what:
+        # a freshly computed result is the caller's own tensor: it shares no memory with an operand (so that editing the result in place
+        # cannot change the operand, whatever the operand's values - purely real ones included)
+        for t_ in OPERANDS:
+            require(t_ is None or out.numel() == 0 or out.untyped_storage().data_ptr() != t_.untyped_storage().data_ptr(), what + ":result-aliases-operand",
+                    f"{what}: the returned tensor shares memory with an operand")
     if len(HELD) < 40:
         HELD.append((out, ref, scale, max(rtol, 1e-15), what))
 
@@ -197,6 +203,7 @@ def mx(z):
     return float(np.abs(z).max()) if z.size else 0.0
 
 
+OPERANDS = []  # the operand tensors of the current call (results must not share memory with them)
 HELD = []      # (output tensor, expected, scale, rtol, what) of every comparison of the current case
 
 
@@ -227,6 +234,7 @@ def check_once(case):
     tb = enc(b) if b is not None else None
     ka = ta.clone() if ta is not None else None
     kb = tb.clone() if tb is not None else None
+    OPERANDS[:] = [ta, tb]
 
     if op == "make_complex":
         x, y = torch.tensor(a.real.copy()), torch.tensor(a.imag.copy())
